@@ -94,6 +94,20 @@ def gen_alphabet(rng):
         f = S.base_spec(rng)
         f["footprint"] = rng.random() < 0.6
         add(f)
+    if rng.random() < 0.35:
+        # a 'stiff' family: 1 m cells, many modes, high levels.  (a) analytic,
+        # single precision: the highest modes decay to ~1e-41 and underflow when
+        # stored as complex64 - a floating-point event numpy ignores by default,
+        # so a leaked error state shows; (b) numeric, double precision, many
+        # levels: the shooting amplifies last-bit differences of the kernel
+        f = S.base_spec(rng)
+        f.update(nx=16, ny=16, domain=[16.0, 16.0], halo=None, modes=[48, 48], nz=6, z0=0.1, zm=30.0, prof="const", U=3.0, V=1.0, K=4.8,
+                 analytic=True, precision="single", levels=5, footprint=True, meas_pt=[8.0, 8.0], bg=0.0, repr=None)
+        add(f)
+        g = S.base_spec(rng)
+        g.update(nx=24, ny=16, domain=[24.0, 16.0], halo=8.0, modes=[16, 16], nz=13, z0=0.1, zm=15.0, prof=rng.choice(["shear", "most_unstable"]), U=3.0, V=1.0,
+                 analytic=False, precision="double", levels=list(range(1, 13)), footprint=True, meas_pt=[10.0, 8.0], bg=0.0, repr=None)
+        add(g)
     if rng.random() < 0.3:
         # a larger dispersion solve (padded grid 32..52 per side, several levels)
         f = S.base_spec(rng)
@@ -816,7 +830,10 @@ def simplify(rec):
         for key in s:
             if s[key] != base.get(key):
                 c = copy.deepcopy(rec)
-                c["alphabet"][i][key] = copy.deepcopy(base[key])
+                if key in base:
+                    c["alphabet"][i][key] = copy.deepcopy(base[key])
+                else:
+                    del c["alphabet"][i][key]
                 yield c
 
 
